@@ -244,6 +244,9 @@ func (a *Operator) useHexBackslashes(input string) string {
 // to be interpreted as a literal.
 func (a *Operator) includeVerticalTabInSpaceClass(input string) string {
 	logger.Trace().Msg("Fixing up regex to include vertical tab (VT) in white space class matches")
+	// When the space starts a range (`[\t\n\f\r -/]`), the range must not be
+	// widened to start at the vertical tab: let it start after the space.
+	input = strings.ReplaceAll(input, `\t\n\f\r -`, `\s\x0b!-`)
 	return strings.ReplaceAll(input, `\t\n\f\r `, `\s\x0b`)
 }
 
